@@ -2319,3 +2319,75 @@ def rule_pair_element_by_position(ctx, rep: Report, rid="H13"):
             f"{reads} read(s) of pairResult; {bad}: the element written to out[k] has to be the k-th element of the pair in every branch "
             f"(pointer, value copied with make_shared, plain value) - a fixed `.first` gives MATLAB the first element (or an object built "
             f"from it) as the second output as well", loc)
+
+
+def rule_enum_lookup_covers_scope(ctx, rep: Report, rid="M13"):
+    """Whether a type is marshalled as an enum is decided by looking its name up among the enums of the class
+    (`class_.enums`) and of the class's namespace (`class_.parent.content`).  The order of declarations in an interface
+    file is free, so the lookup has to range over the *whole* list: no slice, no `break`, no early negative answer, no
+    condition on the position of the class itself; the only filter is the kind test `isinstance(member, Enum)`."""
+    prog = ctx.prog
+    ci = prog.cls("CheckMixin")
+    for pred, tail in (("is_class_enum", ".enums"), ("is_global_enum", ".parent.content")):
+        fn = prog.method("CheckMixin", pred)
+        cparam = func_params(fn)[2]
+        loc = f"{ci.mod.rel}:{fn.lineno}"
+        scopes = [fn]
+        for c in ast.walk(fn):
+            if isinstance(c, ast.Call) and isinstance(c.func, ast.Attribute) and unparse(c.func.value) == "self":
+                h = prog.find_method(ci, c.func.attr)
+                if h is not None and h[1] not in scopes:
+                    scopes.append(h[1])
+        found, probs = 0, []
+        for f_ in scopes:
+            for it in ast.walk(f_):
+                if not isinstance(it, (ast.For, ast.comprehension)):
+                    continue
+                src = inline_locals(f_, it.iter)
+                txt = unparse(src).replace(" ", "")
+                wraps = 0
+                while isinstance(src, ast.Call) and isinstance(src.func, ast.Name) and src.func.id in ("list", "tuple", "iter", "reversed", "sorted", "set") and len(src.args) == 1:
+                    src = src.args[0]
+                    wraps += 1
+                core = unparse(src).replace(" ", "")
+                if not (core.endswith(".content") or core.endswith(".enums") or ".content" in txt or ".enums" in txt):
+                    continue
+                found += 1
+                var = it.target.id if isinstance(it.target, ast.Name) else None
+                whole = isinstance(src, ast.Attribute) and (core == f"{cparam}{tail}" or (f_ is not fn and core.endswith(tail.split(".")[-1])))
+                if not whole:
+                    probs.append(f"line {it.iter.lineno}: ranges over `{txt[:50]}`, not over the whole `{cparam}{tail}`")
+                    continue
+
+                def kind_test(t) -> bool:
+                    return isinstance(t, ast.Call) and unparse(t.func) == "isinstance" and len(t.args) == 2 and unparse(t.args[0]) == var \
+                        and unparse(t.args[1]).split(".")[-1] == "Enum"
+                if isinstance(it, ast.comprehension):
+                    for cond in it.ifs:
+                        if not kind_test(cond):
+                            probs.append(f"line {cond.lineno}: members filtered by `{unparse(cond)[:50]}`")
+                else:
+                    for x in ast.walk(it):
+                        if isinstance(x, ast.Break):
+                            g = enclosing(x, ast.If)
+                            if g is not None and any(isinstance(c_, ast.Compare) and len(c_.ops) == 1 and isinstance(c_.ops[0], ast.Eq)
+                                                     and f"{var}.name" in (unparse(c_.left), unparse(c_.comparators[0])) for c_ in ast.walk(g.test)) \
+                                    and any(x is y for y in ast.walk(ast.Module(body=g.body, type_ignores=[]))):
+                                continue          # leaving the loop once the name was found
+                            probs.append(f"line {x.lineno}: the search stops (`break`) before every member was looked at")
+                        elif isinstance(x, ast.Return) and not (isinstance(x.value, ast.Constant) and x.value.value is True):
+                            probs.append(f"line {x.lineno}: a negative answer (`{unparse(x)[:30]}`) is given inside the search loop")
+                        elif isinstance(x, ast.Continue):
+                            g = enclosing(x, ast.If)
+                            t = g.test if g is not None else None
+                            if not (isinstance(t, ast.UnaryOp) and isinstance(t.op, ast.Not) and kind_test(t.operand)):
+                                probs.append(f"line {x.lineno}: members skipped under `{unparse(t)[:40] if t is not None else '?'}`")
+                        elif isinstance(x, ast.Compare) and any(isinstance(o, (ast.Is, ast.IsNot)) for o in x.ops) \
+                                and cparam in {unparse(x.left)} | {unparse(c_) for c_ in x.comparators}:
+                            probs.append(f"line {x.lineno}: the search depends on where the class itself stands (`{unparse(x)[:40]}`)")
+        if not found:
+            raise AnalysisError(f"{pred}: no lookup over {cparam}{tail} found")
+        rep.add(rid, f"enum context:{pred}:the name is looked up among all enums of the scope, wherever they are declared", not probs,
+                f"{probs}: an enum declared behind the class that uses it (legal in an interface file) is then not recognised and its values are "
+                f"unwrapped / returned as class handles (`unwrap_shared_ptr< E >(in[k], \"ptr_E\")`, `wrap_shared_ptr(std::make_shared<E>(..))`) "
+                f"instead of `unwrap_enum<E>` / `wrap_enum`", loc)
